@@ -439,6 +439,59 @@ func sameWG(a, b *kernels.WorkGroup) bool {
 	return true
 }
 
+// checkReuse: a dispatcher keeps one grid builder and calls SetKernel on it for every kernel it launches. A
+// builder that has already produced kernel prev (completely, or only its first work-group) must produce for
+// kernel g exactly what a fresh builder produces: same count, same work-groups, same wavefront masks and the same
+// work-item ids.
+func checkReuse(prev, g geom, co *insts.KernelCodeObject) *viol {
+	mk := func(f string, a ...any) *viol {
+		p := prev
+		return &viol{sig: "gridbuilder/reused-builder-differs-from-fresh-builder", msg: fmt.Sprintf("%s after %s on the same builder: ", g, prev) + fmt.Sprintf(f, a...),
+			rc: replayCase{Kind: "reuse", Geom: g, Prev: &p}, weight: weight(g) + weight(prev)}
+	}
+	fresh := kernels.NewGridBuilder()
+	fresh.SetKernel(kernels.KernelLaunchInfo{CodeObject: co, Packet: g.packet(), PacketAddr: 0x3000})
+	want, _ := walk(fresh, fresh.NumWG()+4)
+	for _, partial := range []bool{false, true} {
+		gb := kernels.NewGridBuilder()
+		gb.SetKernel(kernels.KernelLaunchInfo{CodeObject: co, Packet: prev.packet(), PacketAddr: 0x2000})
+		if partial {
+			gb.NextWG()
+		} else {
+			walk(gb, gb.NumWG()+4)
+		}
+		gb.SetKernel(kernels.KernelLaunchInfo{CodeObject: co, Packet: g.packet(), PacketAddr: 0x3000})
+		if gb.NumWG() != fresh.NumWG() {
+			return mk("NumWG()=%d, a fresh builder announces %d", gb.NumWG(), fresh.NumWG())
+		}
+		got, over := walk(gb, len(want)+4)
+		if over || len(got) != len(want) {
+			return mk("%d work-groups produced, a fresh builder produces %d", len(got), len(want))
+		}
+		for i := range want {
+			if !sameWG(got[i], want[i]) {
+				return mk("work-group %d (%d,%d,%d) differs from the fresh builder's (current size, wavefront count, an initial EXEC mask or a first work-item id): e.g. masks %s vs %s",
+					i, want[i].IDX, want[i].IDY, want[i].IDZ, masks(got[i]), masks(want[i]))
+			}
+			for j := range want[i].WorkItems {
+				a, b := got[i].WorkItems[j], want[i].WorkItems[j]
+				if a.IDX != b.IDX || a.IDY != b.IDY || a.IDZ != b.IDZ {
+					return mk("work-group %d work-item %d has id (%d,%d,%d), fresh builder (%d,%d,%d)", i, j, a.IDX, a.IDY, a.IDZ, b.IDX, b.IDY, b.IDZ)
+				}
+			}
+		}
+	}
+	return nil
+}
+
+func masks(wg *kernels.WorkGroup) string {
+	var s []string
+	for _, wf := range wg.Wavefronts {
+		s = append(s, fmt.Sprintf("%#x", wf.InitExecMask))
+	}
+	return "[" + strings.Join(s, " ") + "]"
+}
+
 // checkSkip: Skip(n) followed by NextWG must give what n+1 NextWG calls give.
 func checkSkip(g geom, co *insts.KernelCodeObject, wgs []*kernels.WorkGroup, evals *int64) *viol {
 	n := len(wgs)
@@ -1078,6 +1131,27 @@ func main() {
 	}) {
 		exhaustive = false
 	}
+	// ---- (1c) one grid builder, two kernels in a row (ordered pairs of small geometries with partial edges; several
+	// share the truncated extent of their edge work-groups although their work-group shapes differ)
+	reuse := []geom{
+		{G: [3]uint32{12, 4, 1}, W: [3]uint16{8, 8, 1}}, {G: [3]uint32{20, 4, 1}, W: [3]uint16{16, 4, 1}}, {G: [3]uint32{12, 4, 1}, W: [3]uint16{16, 4, 1}},
+		{G: [3]uint32{10, 1, 1}, W: [3]uint16{4, 1, 1}}, {G: [3]uint32{10, 1, 1}, W: [3]uint16{8, 1, 1}}, {G: [3]uint32{130, 1, 1}, W: [3]uint16{64, 1, 1}},
+		{G: [3]uint32{130, 1, 1}, W: [3]uint16{128, 1, 1}}, {G: [3]uint32{7, 9, 1}, W: [3]uint16{4, 4, 1}}, {G: [3]uint32{9, 7, 1}, W: [3]uint16{4, 4, 1}},
+		{G: [3]uint32{7, 9, 1}, W: [3]uint16{8, 4, 1}}, {G: [3]uint32{6, 6, 3}, W: [3]uint16{4, 4, 2}}, {G: [3]uint32{5, 6, 3}, W: [3]uint16{4, 2, 2}},
+		{G: [3]uint32{6, 6, 3}, W: [3]uint16{4, 8, 2}}, {G: [3]uint32{64, 2, 1}, W: [3]uint16{64, 1, 1}}, {G: [3]uint32{3, 3, 3}, W: [3]uint16{2, 2, 2}},
+		{G: [3]uint32{3, 3, 3}, W: [3]uint16{4, 2, 2}},
+	}
+	var nReuse int64
+	if !r.ForEach(len(reuse)*len(reuse), func(i int) {
+		a, b := reuse[i/len(reuse)], reuse[i%len(reuse)]
+		col.add(checkReuse(a, b, baseCO))
+		atomic.AddInt64(&nReuse, 1)
+	}) {
+		exhaustive = false
+	}
+	fmt.Printf("grid builder reuse: %d ordered pairs of kernels on one builder (after a complete and after a partial first kernel)\n", nReuse)
+	r.Cov["gridbuilder_reuse_ordered_pairs"] = nReuse
+
 	// ---- (2b) launch history: the same kernel launched twice with different work-group shapes on one CU
 	shapes := []geom{
 		{G: [3]uint32{32, 32, 1}, W: [3]uint16{16, 16, 1}}, {G: [3]uint32{64, 16, 1}, W: [3]uint16{32, 8, 1}}, {G: [3]uint32{512, 1, 1}, W: [3]uint16{256, 1, 1}},
@@ -1231,6 +1305,8 @@ func replay(r *harness.Run) {
 		case "filter":
 			var n, e int64
 			return checkFilters(c.Geom, c.CUs, &n, &e)
+		case "reuse":
+			return checkReuse(*c.Prev, c.Geom, baseCO)
 		}
 		fmt.Fprintln(os.Stderr, "unknown case kind", c.Kind)
 		os.Exit(2)
